@@ -1,11 +1,500 @@
-(* C05/Proofs.v — lemmas about the retry model. *)
+(* C05/Proofs.v — lemmas about the retry model (C05/Model.v). *)
 From Verif Require Import Common.Base Generated.C05BackoffValidate C05.Model.
+From Coq Require Import ZifyBool.
 Local Open Scope Z_scope.
+Local Arguments do_step : simpl never.
 
-Lemma timeout_per_attempt_l : forall sc n now pl cur a,
-  s_deadline (do_step sc n now pl cur a) = att_deadline sc now.
+(* ================================================================================================ *)
+(* 1. The loop as an inductive chain of iterations                                                   *)
+(* ================================================================================================ *)
+Inductive chain (sc : scenario) : list attempt -> nat -> Z -> list Z -> Z -> list step -> verdict -> Prop :=
+| ch_nil : forall n now pl cur, chain sc [] n now pl cur [] VPending
+| ch_stop : forall a rest n now pl cur v,
+    s_dec (do_step sc n now pl cur a) = DStop v ->
+    chain sc (a :: rest) n now pl cur [do_step sc n now pl cur a] v
+| ch_retry : forall a rest n now pl cur l v,
+    s_dec (do_step sc n now pl cur a) = DRetry ->
+    chain sc rest (S n) (s_end (do_step sc n now pl cur a) + s_delay (do_step sc n now pl cur a))
+          (s_npayload (do_step sc n now pl cur a)) (s_ncur (do_step sc n now pl cur a)) l v ->
+    chain sc (a :: rest) n now pl cur (do_step sc n now pl cur a :: l) v.
+
+Lemma loop_chain sc : forall script n now pl cur,
+  chain sc script n now pl cur (fst (loop sc script n now pl cur)) (snd (loop sc script n now pl cur)).
 Proof.
-  intros. unfold do_step. destruct (effective sc now a) as [e r].
-  destruct r; [reflexivity|].
-  repeat match goal with |- context [if ?b then _ else _] => destruct b end; reflexivity.
+  induction script as [|a rest IH]; intros n now pl cur.
+  - cbn [loop fst snd]. constructor.
+  - cbn [loop]. remember (do_step sc n now pl cur a) as st eqn:Hst.
+    destruct (s_dec st) eqn:E.
+    + specialize (IH (S n) (s_end st + s_delay st) (s_npayload st) (s_ncur st)).
+      destruct (loop sc rest (S n) (s_end st + s_delay st) (s_npayload st) (s_ncur st)) as [l v].
+      cbn [fst snd] in *. subst st. apply ch_retry; assumption.
+    + cbn [fst snd]. subst st. apply ch_stop; assumption.
+Qed.
+
+Lemma run_chain sc script :
+  chain sc script 0%nat 0 (sc_payload sc) 0 (steps_of sc script) (verdict_of sc script).
+Proof. apply loop_chain. Qed.
+
+Lemma chain_length sc script n now pl cur l v :
+  chain sc script n now pl cur l v -> (length l <= length script)%nat.
+Proof. induction 1; simpl; lia. Qed.
+
+(* every recorded step is the loop body applied to some state and to the k-th scripted outcome *)
+Lemma chain_nth sc script n now pl cur l v :
+  chain sc script n now pl cur l v ->
+  forall k st, nth_error l k = Some st ->
+  exists now' pl' cur' a, nth_error script k = Some a /\ st = do_step sc (n + k) now' pl' cur' a.
+Proof.
+  induction 1 as [| a rest n now pl cur v E | a rest n now pl cur l v E C IH]; intros k st Hk.
+  - destruct k; discriminate.
+  - destruct k as [|k]; [|destruct k; discriminate]. inversion Hk; subst.
+    exists now, pl, cur, a. rewrite Nat.add_0_r. split; reflexivity.
+  - destruct k as [|k].
+    + inversion Hk; subst. exists now, pl, cur, a. rewrite Nat.add_0_r. split; reflexivity.
+    + simpl in Hk. destruct (IH k st Hk) as (now' & pl' & cur' & a' & Ha & Hs).
+      exists now', pl', cur', a'. split; [exact Ha|]. rewrite Hs. f_equal. lia.
+Qed.
+
+(* a step that decides to stop is the last one and its verdict is the run's verdict *)
+Lemma chain_stop_last sc script n now pl cur l v :
+  chain sc script n now pl cur l v ->
+  forall k st v', nth_error l k = Some st -> s_dec st = DStop v' -> length l = S k /\ v = v'.
+Proof.
+  induction 1 as [| a rest n now pl cur v E | a rest n now pl cur l v E C IH]; intros k st v' Hk Hd.
+  - destruct k; discriminate.
+  - destruct k as [|k]; [|destruct k; discriminate]. inversion Hk; subst. split; [reflexivity|congruence].
+  - destruct k as [|k].
+    + inversion Hk; subst. congruence.
+    + simpl in Hk. destruct (IH k st v' Hk Hd) as [L V]. split; [simpl; lia|exact V].
+Qed.
+
+(* the last step either carries the verdict or the script ran out *)
+Lemma chain_last sc script n now pl cur l v :
+  chain sc script n now pl cur l v ->
+  forall st, last_opt l = Some st ->
+  s_dec st = DStop v \/ (s_dec st = DRetry /\ v = VPending /\ length l = length script).
+Proof.
+  induction 1 as [| a rest n now pl cur v E | a rest n now pl cur l v E C IH]; intros st Hl.
+  - discriminate.
+  - simpl in Hl. inversion Hl; subst. left; exact E.
+  - destruct l as [|x l'].
+    + inversion C; subst. simpl in Hl. inversion Hl; subst. right. repeat split; auto.
+    + change (last_opt (x :: l') = Some st) in Hl. destruct (IH st Hl) as [D|(D & V & L)]; [left; exact D|].
+      right. repeat split; auto. simpl in *. lia.
+Qed.
+
+Lemma chain_first sc script n now pl cur st l v :
+  chain sc script n now pl cur (st :: l) v ->
+  exists a rest, script = a :: rest /\ st = do_step sc n now pl cur a.
+Proof. intros C. inversion C; subst; eauto. Qed.
+
+(* two consecutive steps *)
+Lemma chain_consecutive sc script n now pl cur l v :
+  chain sc script n now pl cur l v ->
+  forall k st st', nth_error l k = Some st -> nth_error l (S k) = Some st' ->
+  s_dec st = DRetry /\ s_start st' = s_end st + s_delay st /\ s_payload st' = s_npayload st /\
+  s_idx st' = S (s_idx st).
+Proof.
+  induction 1 as [| a rest n now pl cur v E | a rest n now pl cur l v E C IH]; intros k st st' Hk Hk'.
+  - destruct k; discriminate.
+  - destruct k; discriminate.
+  - destruct k as [|k].
+    + inversion Hk; subst. simpl in Hk'. destruct l as [|x l']; [discriminate|]. inversion Hk'; subst.
+      destruct (chain_first _ _ _ _ _ _ _ _ _ C) as (a' & rest' & _ & ->).
+      split; [exact E|]. repeat split; reflexivity.
+    + simpl in Hk, Hk'. exact (IH k st st' Hk Hk').
+Qed.
+
+(* a step that decides to retry is followed by another step iff the script has another outcome *)
+Lemma chain_retry_next sc script n now pl cur l v :
+  chain sc script n now pl cur l v ->
+  forall k st, nth_error l k = Some st -> s_dec st = DRetry ->
+  (S k < length script)%nat -> exists st', nth_error l (S k) = Some st'.
+Proof.
+  induction 1 as [| a rest n now pl cur v E | a rest n now pl cur l v E C IH]; intros k st Hk Hd Hlen.
+  - destruct k; discriminate.
+  - destruct k as [|k]; [|destruct k; discriminate]. inversion Hk; subst. congruence.
+  - destruct k as [|k].
+    + simpl in *. inversion C; subst; simpl in *; try lia; eexists; reflexivity.
+    + simpl in Hk. simpl in Hlen. destruct (IH k st Hk Hd ltac:(lia)) as [st' H']. exists st'. exact H'.
+Qed.
+
+(* the suffix of a run from step i on is itself a run of the loop *)
+Lemma chain_suffix sc script n now pl cur l v :
+  chain sc script n now pl cur l v ->
+  forall i sti, nth_error l i = Some sti ->
+  exists script' now' cur' l',
+    chain sc script' (n + i) now' (s_payload sti) cur' l' v /\
+    (forall k, nth_error l' k = nth_error l (i + k)).
+Proof.
+  induction 1 as [| a rest n now pl cur v E | a rest n now pl cur l v E C IH]; intros i sti Hi.
+  - destruct i; discriminate.
+  - destruct i as [|i]; [|destruct i; discriminate]. inversion Hi; subst.
+    exists (a :: rest), now, cur, [do_step sc n now pl cur a]. rewrite Nat.add_0_r. split.
+    + apply ch_stop; exact E.
+    + intros k; reflexivity.
+  - destruct i as [|i].
+    + inversion Hi; subst. exists (a :: rest), now, cur, (do_step sc n now pl cur a :: l).
+      rewrite Nat.add_0_r. split; [apply ch_retry; assumption|intros k; reflexivity].
+    + simpl in Hi. destruct (IH i sti Hi) as (script' & now' & cur' & l' & C' & N').
+      exists script', now', cur', l'. split.
+      * replace (n + S i)%nat with (S n + i)%nat by lia. exact C'.
+      * intros k. rewrite N'. reflexivity.
+Qed.
+
+(* ================================================================================================ *)
+(* 2. One iteration: the decision                                                                     *)
+(* ================================================================================================ *)
+Definition fits_elapsed (sc : scenario) (t : Z) : Prop := 0 < c_maxel (sc_cfg sc) -> t <= c_maxel (sc_cfg sc).
+Definition fits_deadline (sc : scenario) (t : Z) : Prop := forall dl, sc_deadline sc = Some dl -> t <= dl.
+
+Definition retry_conditions (sc : scenario) (st : step) : Prop :=
+  c_enabled (sc_cfg sc) = true /\
+  (exists ch, s_res st = RErr ch /\ is_permanent ch = false) /\
+  s_next st <> backoff_stop /\
+  fits_elapsed sc (s_end st + s_delay st) /\
+  fits_deadline sc (s_end st + s_delay st) /\
+  s_wake st = WTimer /\
+  stop_closed_at sc (s_end st + s_delay st) = false.
+
+Lemma decide_retry_iff sc r e next delay w :
+  decide sc r e next delay w = DRetry <->
+  c_enabled (sc_cfg sc) = true /\ (exists ch, r = RErr ch /\ is_permanent ch = false) /\
+  next <> backoff_stop /\ fits_elapsed sc (e + delay) /\ fits_deadline sc (e + delay) /\ w = WTimer /\
+  stop_closed_at sc (e + delay) = false.
+Proof.
+  unfold decide, fits_elapsed, fits_deadline. destruct r as [|ch].
+  - split; [discriminate|]. intros (_ & (ch & H & _) & _). discriminate.
+  - destruct (c_enabled (sc_cfg sc)) eqn:En; simpl.
+    2:{ split; [discriminate|]. intros (H & _). discriminate. }
+    destruct (is_permanent ch) eqn:Pm.
+    { split; [discriminate|]. intros (_ & (ch' & H & H') & _). inversion H; subst. congruence. }
+    destruct (next =? backoff_stop) eqn:Ns.
+    { split; [discriminate|]. intros (_ & _ & H & _). apply Z.eqb_eq in Ns. contradiction. }
+    destruct ((0 <? c_maxel (sc_cfg sc)) && (c_maxel (sc_cfg sc) <? e + delay)) eqn:Me.
+    { split; [discriminate|]. intros (_ & _ & _ & H & _). apply andb_true_iff in Me. lia. }
+    assert (Hel : 0 < c_maxel (sc_cfg sc) -> e + delay <= c_maxel (sc_cfg sc)).
+    { apply andb_false_iff in Me. lia. }
+    assert (Hns : next <> backoff_stop) by (apply Z.eqb_neq; exact Ns).
+    destruct (sc_deadline sc) as [dl|] eqn:Dl.
+    + destruct (dl <? e + delay) eqn:Dd.
+      { split; [discriminate|]. intros (_ & _ & _ & _ & H & _). specialize (H dl eq_refl). lia. }
+      destruct w; try (split; [discriminate | intros (_ & _ & _ & _ & _ & H & _); discriminate]).
+      destruct (stop_closed_at sc (e + delay)) eqn:Sc.
+      { split; [discriminate | intros (_ & _ & _ & _ & _ & _ & H); discriminate]. }
+      split; [intros _ | reflexivity].
+      repeat split; eauto. intros dl' Hd. inversion Hd; subst. lia.
+    + destruct w; try (split; [discriminate | intros (_ & _ & _ & _ & _ & H & _); discriminate]).
+      destruct (stop_closed_at sc (e + delay)) eqn:Sc.
+      { split; [discriminate | intros (_ & _ & _ & _ & _ & _ & H); discriminate]. }
+      split; [intros _ | reflexivity].
+      repeat split; eauto. intros dl' Hd. discriminate.
+Qed.
+
+Lemma step_retry_iff sc n now pl cur a :
+  s_dec (do_step sc n now pl cur a) = DRetry <-> retry_conditions sc (do_step sc n now pl cur a).
+Proof. unfold retry_conditions, do_step. simpl. apply decide_retry_iff. Qed.
+
+(* verdicts of a single step, by cause *)
+Lemma decide_ok sc e next delay w : decide sc ROk e next delay w = DStop VOk.
+Proof. reflexivity. Qed.
+
+Lemma decide_permanent sc ch e next delay w :
+  is_permanent ch = true ->
+  decide sc (RErr ch) e next delay w = DStop (if c_enabled (sc_cfg sc) then VPermanent else VRaw).
+Proof. intros P. unfold decide. destruct (c_enabled (sc_cfg sc)); simpl; [rewrite P|]; reflexivity. Qed.
+
+Lemma decide_disabled sc ch e next delay w :
+  c_enabled (sc_cfg sc) = false -> decide sc (RErr ch) e next delay w = DStop VRaw.
+Proof. intros P. unfold decide. rewrite P. reflexivity. Qed.
+
+(* the select is reached *)
+Definition reaches_wait (sc : scenario) (st : step) : Prop :=
+  c_enabled (sc_cfg sc) = true /\
+  (exists ch, s_res st = RErr ch /\ is_permanent ch = false) /\
+  s_next st <> backoff_stop /\
+  fits_elapsed sc (s_end st + s_delay st) /\
+  fits_deadline sc (s_end st + s_delay st).
+
+Lemma decide_wait sc r e next delay w :
+  c_enabled (sc_cfg sc) = true -> (exists ch, r = RErr ch /\ is_permanent ch = false) ->
+  next <> backoff_stop -> fits_elapsed sc (e + delay) -> fits_deadline sc (e + delay) ->
+  decide sc r e next delay w =
+  match w with
+  | WCtx => DStop VCancelled
+  | WStop => DStop VShutdown
+  | WTimer => if stop_closed_at sc (e + delay) then DStop VShutdown else DRetry
+  end.
+Proof.
+  intros En (ch & -> & Pm) Ns Fe Fd. unfold decide, fits_elapsed, fits_deadline in *.
+  rewrite En, Pm. simpl. apply Z.eqb_neq in Ns. rewrite Ns.
+  destruct ((0 <? c_maxel (sc_cfg sc)) && (c_maxel (sc_cfg sc) <? e + delay)) eqn:Me.
+  { apply andb_true_iff in Me. lia. }
+  destruct (sc_deadline sc) as [dl|]; [|reflexivity].
+  specialize (Fd dl eq_refl). destruct (dl <? e + delay) eqn:Dd; [lia|reflexivity].
+Qed.
+
+Lemma decide_shutdown_only sc r e next delay w :
+  decide sc r e next delay w = DStop VShutdown ->
+  w = WStop \/ (w = WTimer /\ stop_closed_at sc (e + delay) = true).
+Proof.
+  unfold decide. destruct r; [discriminate|].
+  repeat match goal with |- context [if negb ?b then _ else _] => destruct b; simpl end; try discriminate.
+  repeat match goal with |- context [if ?b then _ else _] => destruct b eqn:? end; try discriminate;
+    destruct w; try discriminate; auto;
+    match goal with |- context [stop_closed_at ?a ?b] => destruct (stop_closed_at a b) eqn:Sc end;
+    try discriminate; auto.
+Qed.
+
+(* ================================================================================================ *)
+(* 3. The select                                                                                      *)
+(* ================================================================================================ *)
+Lemma find_unique {A} (f : A -> bool) (l : list A) (w0 : A) :
+  f w0 = true -> (forall w, f w = true -> w = w0) -> In w0 l -> find f l = Some w0.
+Proof.
+  intros H U. induction l as [|a l IH]; simpl; intros I; [contradiction|].
+  destruct (f a) eqn:F; [f_equal; auto|]. destruct I as [->|I]; [congruence|auto].
+Qed.
+
+Lemma some_ready e d ctxd stop :
+  is_ready e d ctxd stop WCtx = true \/ is_ready e d ctxd stop WStop = true \/ is_ready e d ctxd stop WTimer = true.
+Proof.
+  unfold is_ready, ready_at, first_instant. destruct ctxd as [c|], stop as [s|]; simpl; lia.
+Qed.
+
+Lemma select_ready pref e d ctxd stop : is_ready e d ctxd stop (select_wait pref e d ctxd stop) = true.
+Proof.
+  unfold select_wait. destruct (find _ _) as [w|] eqn:F.
+  - apply find_some in F. apply F.
+  - exfalso. pose proof (find_none _ _ F) as N.
+    destruct (some_ready e d ctxd stop) as [H|[H|H]];
+      [ rewrite (N WCtx) in H | rewrite (N WStop) in H | rewrite (N WTimer) in H ]; try discriminate;
+      apply in_or_app; right; simpl; auto.
+Qed.
+
+Lemma select_unique pref e d ctxd stop w0 :
+  is_ready e d ctxd stop w0 = true -> (forall w, is_ready e d ctxd stop w = true -> w = w0) ->
+  select_wait pref e d ctxd stop = w0.
+Proof.
+  intros H U. unfold select_wait. rewrite (find_unique _ _ w0 H U); [reflexivity|].
+  apply in_or_app; right. destruct w0; simpl; auto.
+Qed.
+
+(* the stop channel wins when it becomes ready strictly before the timer and the context *)
+Lemma select_stop_wins pref e d ctxd stop s :
+  stop = Some s -> Z.max e s < e + d -> (forall c, ctxd = Some c -> Z.max e s < Z.max e c) ->
+  select_wait pref e d ctxd stop = WStop.
+Proof.
+  intros -> Ht Hc. apply select_unique.
+  - unfold is_ready, ready_at, first_instant. destruct ctxd as [c|]; simpl; [specialize (Hc c eq_refl)|]; lia.
+  - intros w. unfold is_ready, ready_at, first_instant.
+    destruct w; destruct ctxd as [c|]; simpl; try specialize (Hc c eq_refl); try discriminate; try lia; auto.
+Qed.
+
+Lemma select_ctx_wins pref e d ctxd stop c :
+  ctxd = Some c -> Z.max e c < e + d -> (forall s, stop = Some s -> Z.max e c < Z.max e s) ->
+  select_wait pref e d ctxd stop = WCtx.
+Proof.
+  intros -> Ht Hs. apply select_unique.
+  - unfold is_ready, ready_at, first_instant. destruct stop as [s|]; simpl; [specialize (Hs s eq_refl)|]; lia.
+  - intros w. unfold is_ready, ready_at, first_instant.
+    destruct w; destruct stop as [s|]; simpl; try specialize (Hs s eq_refl); try discriminate; try lia; auto.
+Qed.
+
+Lemma select_timer_wins pref e d ctxd stop :
+  (forall c, ctxd = Some c -> e + d < Z.max e c) -> (forall s, stop = Some s -> e + d < Z.max e s) ->
+  select_wait pref e d ctxd stop = WTimer.
+Proof.
+  intros Hc Hs. apply select_unique.
+  - unfold is_ready, ready_at, first_instant.
+    destruct ctxd as [c|]; destruct stop as [s|]; simpl;
+      try specialize (Hc c eq_refl); try specialize (Hs s eq_refl); lia.
+  - intros w. unfold is_ready, ready_at, first_instant.
+    destruct w; destruct ctxd as [c|]; destruct stop as [s|]; simpl;
+      try specialize (Hc c eq_refl); try specialize (Hs s eq_refl); try discriminate; try lia; auto.
+Qed.
+
+(* what each outcome of the select implies *)
+Lemma select_timer_only pref e d ctxd stop :
+  select_wait pref e d ctxd stop = WTimer ->
+  (forall c, ctxd = Some c -> e + d <= Z.max e c) /\ (forall s, stop = Some s -> e + d <= Z.max e s).
+Proof.
+  intros H. pose proof (select_ready pref e d ctxd stop) as R. rewrite H in R.
+  unfold is_ready, ready_at, first_instant in R.
+  split; [intros c Hc; subst ctxd; destruct stop as [s'|] | intros s Hs; subst stop; destruct ctxd as [c'|]]; simpl in R; lia.
+Qed.
+
+Lemma select_stop_only pref e d ctxd stop :
+  select_wait pref e d ctxd stop = WStop ->
+  exists s, stop = Some s /\ Z.max e s <= e + d /\ (forall c, ctxd = Some c -> Z.max e s <= Z.max e c).
+Proof.
+  intros H. pose proof (select_ready pref e d ctxd stop) as R. rewrite H in R.
+  unfold is_ready, ready_at, first_instant in R.
+  destruct stop as [s|]; [|discriminate]. exists s. split; [reflexivity|].
+  split; [destruct ctxd as [c'|] | intros c Hc; subst ctxd]; simpl in R; lia.
+Qed.
+
+Lemma select_ctx_only pref e d ctxd stop :
+  select_wait pref e d ctxd stop = WCtx ->
+  exists c, ctxd = Some c /\ Z.max e c <= e + d /\ (forall s, stop = Some s -> Z.max e c <= Z.max e s).
+Proof.
+  intros H. pose proof (select_ready pref e d ctxd stop) as R. rewrite H in R.
+  unfold is_ready, ready_at, first_instant in R.
+  destruct ctxd as [c|]; [|discriminate]. exists c. split; [reflexivity|].
+  split; [destruct stop as [s'|] | intros s Hs; subst stop]; simpl in R; lia.
+Qed.
+
+(* ================================================================================================ *)
+(* 4. Back-off arithmetic and the configuration domain                                                *)
+(* ================================================================================================ *)
+Definition valid_config (c : config) : Prop :=
+  backoff_validate (c_enabled c) (c_init c) (fst (c_rf c)) (snd (c_rf c)) (fst (c_mult c)) (snd (c_mult c))
+                   (c_maxint c) (c_maxel c) = None /\
+  0 < snd (c_rf c) /\ 0 < snd (c_mult c).
+
+Definition valid_draw (u : Z * Z) : Prop := 0 <= fst u < snd u.
+
+Lemma validate_domain c :
+  valid_config c -> c_enabled c = true ->
+  0 <= c_init c /\ 0 <= fst (c_rf c) <= snd (c_rf c) /\ 0 <= fst (c_mult c) /\ 0 <= c_maxint c /\
+  0 <= c_maxel c /\ (0 < c_maxel c -> c_init c <= c_maxel c /\ c_maxint c <= c_maxel c).
+Proof.
+  intros (V & Hr & Hm) En. unfold backoff_validate in V. rewrite En in V. cbn [negb] in V.
+  repeat match type of V with context [if ?b then _ else _] => destruct b eqn:? end; try discriminate; lia.
+Qed.
+
+Lemma rand_interval_bounds c cur u :
+  0 <= fst (c_rf c) <= snd (c_rf c) -> 0 < snd (c_rf c) -> valid_draw u -> 0 <= cur ->
+  let next := rand_interval c cur u in
+  0 <= next /\
+  cur * (snd (c_rf c) - fst (c_rf c)) < (next + 1) * snd (c_rf c) /\
+  next * snd (c_rf c) <= cur * (snd (c_rf c) + fst (c_rf c)) + snd (c_rf c).
+Proof.
+  unfold rand_interval, valid_draw. destruct (c_rf c) as [rn rd]. destruct u as [un ud]. cbn [fst snd].
+  intros Hr Hd Hu Hc. cbv zeta. destruct (rn =? 0) eqn:R0.
+  - apply Z.eqb_eq in R0. subst rn. nia.
+  - set (N := cur * (rd - rn) * ud + un * (2 * rn * cur + rd)).
+    set (D := rd * ud).
+    assert (HD : 0 < D) by (unfold D; nia).
+    pose proof (Z.mul_div_le N D HD) as Hlo.
+    pose proof (Z.mul_succ_div_gt N D HD) as Hhi.
+    assert (A1 : 0 <= cur * (rd - rn)) by (apply Z.mul_nonneg_nonneg; lia).
+    assert (A2 : 0 <= 2 * rn * cur + rd) by nia.
+    assert (H1 : cur * (rd - rn) * ud <= N) by (unfold N; nia).
+    assert (H2 : N <= cur * (rd - rn) * ud + ud * (2 * rn * cur + rd)) by (unfold N; nia).
+    assert (HN0 : 0 <= N) by nia.
+    assert (Hq : 0 <= N / D) by (apply Z.div_pos; lia).
+    set (q := N / D) in *.
+    split; [exact Hq|]. unfold D in *. unfold Z.succ in Hhi. clearbody q. clearbody N. split.
+    + assert (B : cur * (rd - rn) * ud < rd * (q + 1) * ud) by nia.
+      assert (B' : cur * (rd - rn) < rd * (q + 1)). { apply Z.mul_lt_mono_pos_r with (p := ud); [lia|exact B]. }
+      rewrite (Z.mul_comm (q + 1) rd). exact B'.
+    + assert (B : q * rd * ud <= (cur * (rd + rn) + rd) * ud) by nia.
+      assert (B' : q * rd <= cur * (rd + rn) + rd). { apply Z.mul_le_mono_pos_r with (p := ud); [lia|exact B]. }
+      exact B'.
+Qed.
+
+Lemma increment_bounds c cur :
+  0 <= cur -> 0 <= fst (c_mult c) -> 0 < snd (c_mult c) -> 0 <= c_maxint c ->
+  0 <= increment c cur <= c_maxint c.
+Proof.
+  unfold increment. destruct (c_mult c) as [mn md]. simpl. intros Hc Hn Hd Hm.
+  destruct (cur * mn >=? c_maxint c * md) eqn:E; [lia|].
+  assert (cur * mn < c_maxint c * md) by lia.
+  split; [apply Z.div_pos; nia|].
+  assert (cur * mn / md < c_maxint c) by (apply Z.div_lt_upper_bound; nia). lia.
+Qed.
+
+(* the documented recurrence: interval' = min(interval * multiplier, max_interval), truncated *)
+Lemma increment_min c cur :
+  0 < snd (c_mult c) ->
+  increment c cur = Z.min (cur * fst (c_mult c) / snd (c_mult c)) (c_maxint c).
+Proof.
+  unfold increment. destruct (c_mult c) as [mn md]. simpl. intros Hd.
+  destruct (cur * mn >=? c_maxint c * md) eqn:E.
+  - assert (c_maxint c <= cur * mn / md) by (apply Z.div_le_lower_bound; lia). lia.
+  - assert (cur * mn / md < c_maxint c) by (apply Z.div_lt_upper_bound; lia). lia.
+Qed.
+
+Lemma reset_cur_bounds c cur lim :
+  0 <= c_init c -> 0 <= cur <= lim -> 0 <= reset_cur c cur <= Z.max (c_init c) lim.
+Proof. unfold reset_cur. destruct (cur =? 0); lia. Qed.
+
+Lemma cur_seq_bounds c n :
+  0 <= c_init c -> 0 <= fst (c_mult c) -> 0 < snd (c_mult c) -> 0 <= c_maxint c ->
+  0 <= cur_seq c n <= Z.max (c_init c) (c_maxint c).
+Proof.
+  intros Hi Hn Hd Hm. induction n as [|n IH]; simpl.
+  - unfold reset_cur. simpl. lia.
+  - pose proof (increment_bounds c (cur_seq c n) ltac:(lia) Hn Hd Hm) as B.
+    apply reset_cur_bounds; lia.
+Qed.
+
+(* the interval used by the n-th NextBackOff call *)
+Lemma chain_cur sc script n now pl cur l v :
+  chain sc script n now pl cur l v ->
+  reset_cur (sc_cfg sc) cur = cur_seq (sc_cfg sc) n ->
+  forall k st, nth_error l k = Some st -> s_cur st = cur_seq (sc_cfg sc) (n + k).
+Proof.
+  induction 1 as [| a rest n now pl cur v E | a rest n now pl cur l v E C IH]; intros Hc k st Hk.
+  - destruct k; discriminate.
+  - destruct k as [|k]; [|destruct k; discriminate]. inversion Hk; subst. unfold do_step; simpl. rewrite Nat.add_0_r. exact Hc.
+  - destruct k as [|k].
+    + inversion Hk; subst. unfold do_step; simpl. rewrite Nat.add_0_r. exact Hc.
+    + simpl in Hk. replace (n + S k)%nat with (S n + k)%nat by lia. apply IH; [|exact Hk].
+      unfold do_step; simpl. rewrite Hc. reflexivity.
+Qed.
+
+Lemma step_delay_def sc n now pl cur a :
+  let st := do_step sc n now pl cur a in
+  s_next st = rand_interval (sc_cfg sc) (s_cur st) (draw_at sc n) /\
+  s_delay st = match s_res st with
+               | RErr ch => match throttle_of ch with Some d => Z.max (s_next st) d | None => s_next st end
+               | ROk => s_next st
+               end.
+Proof. unfold do_step; simpl. split; [reflexivity|]. destruct (snd (effective sc now a)); reflexivity. Qed.
+
+(* ================================================================================================ *)
+(* 5. Payload                                                                                         *)
+(* ================================================================================================ *)
+Lemma sub_ms_refl l : sub_ms l l.
+Proof. intros x. lia. Qed.
+
+Lemma sub_ms_trans a b c : sub_ms a b -> sub_ms b c -> sub_ms a c.
+Proof. intros H1 H2 x. specialize (H1 x). specialize (H2 x). lia. Qed.
+
+Lemma step_npayload sc n now pl cur a :
+  let st := do_step sc n now pl cur a in
+  s_npayload st = match s_res st with RErr ch => on_error (sc_sig sc) (s_payload st) ch | ROk => s_payload st end.
+Proof. unfold do_step; simpl. destruct (snd (effective sc now a)); reflexivity. Qed.
+
+Lemma chain_payload sc script n now pl cur l v :
+  chain sc script n now pl cur l v ->
+  (forall k st ch rem, nth_error l k = Some st -> s_res st = RErr ch ->
+                       partial_of (sc_sig sc) ch = Some rem -> sub_ms rem (s_payload st)) ->
+  forall k st, nth_error l k = Some st -> sub_ms (s_payload st) pl.
+Proof.
+  induction 1 as [| a rest n now pl cur v E | a rest n now pl cur l v E C IH]; intros Hp k st Hk.
+  - destruct k; discriminate.
+  - destruct k as [|k]; [|destruct k; discriminate]. inversion Hk; subst. apply sub_ms_refl.
+  - destruct k as [|k].
+    + inversion Hk; subst. apply sub_ms_refl.
+    + simpl in Hk. eapply sub_ms_trans.
+      * refine (IH _ k st Hk). intros k' st' ch rem Hk' Hr Hpa. exact (Hp (S k') st' ch rem Hk' Hr Hpa).
+      * pose proof (step_npayload sc n now pl cur a) as NP. cbv zeta in NP. rewrite NP.
+        destruct (s_res (do_step sc n now pl cur a)) as [|ch] eqn:R; [apply sub_ms_refl|].
+        unfold on_error. destruct (partial_of (sc_sig sc) ch) as [rem|] eqn:Pa; [|apply sub_ms_refl].
+        exact (Hp 0%nat _ ch rem eq_refl R Pa).
+Qed.
+
+(* ================================================================================================ *)
+(* 6. Final error                                                                                     *)
+(* ================================================================================================ *)
+Lemma last_opt_nth {A} (l : list A) k : length l = S k -> last_opt l = nth_error l k.
+Proof.
+  revert k. induction l as [|a l IH]; intros k H; [discriminate|].
+  destruct l as [|b l'].
+  - destruct k; [reflexivity|discriminate].
+  - destruct k as [|k]; [discriminate|]. simpl in H. change (last_opt (b :: l') = nth_error (b :: l') k).
+    apply IH. simpl. lia.
 Qed.
